@@ -19,10 +19,13 @@ import (
 	"math/rand"
 	"os"
 	"os/exec"
+	"path/filepath"
 	"reflect"
+	"regexp"
 	"sort"
 	"strconv"
 	"strings"
+	"sync"
 	"unsafe"
 
 	gojson "github.com/goccy/go-json"
@@ -61,7 +64,7 @@ func runC14Spread(o *Out) {
 		v := reflect.New(t)
 		c14Fill(v.Elem(), r, 0)
 		if cur, err := stdjson.Marshal(v.Interface()); err == nil {
-			o.current(map[string]string{"property": "C14", "phase": "heap spread", "type": t.String(), "typeptr": fmt.Sprintf("%#x", c14Addr(t)), "value": clip(string(cur))})
+			c14Current(o, map[string]string{"property": "C14", "phase": "heap spread", "type": t.String(), "typeptr": fmt.Sprintf("%#x", c14Addr(t)), "value": clip(string(cur))})
 		}
 		o.hist("descriptor_address_mb", strconv.Itoa(int((c14Addr(t)&0xffffffff)>>20)))
 		for variant := 0; variant < 2; variant++ {
@@ -178,6 +181,13 @@ func runC14(o *Out) {
 	o.count("types_compiled_in", int64(len(c14Compiled)))
 	o.count("types_created_at_run_time", int64(nrt))
 	valueSeed := r.Int63()
+	// generator audit: a generator of its own, so that the cases above and below stay what they were
+	auditRng := rand.New(rand.NewSource(o.seed ^ 0x5a5a14))
+	// a fifth of the types is used for the first time through the other entry points and behind interfaces, a
+	// tenth by eight goroutines at once; the passes below then meet them warm
+	auditOrder := auditRng.Perm(len(types))
+	c14ColdEntryPoints(o, types, auditOrder[:len(types)/5], valueSeed, auditRng)
+	c14Concurrent(o, types, auditOrder[len(types)/5:len(types)/5+len(types)/10], valueSeed, auditRng)
 	passes := 2
 	for pass := 0; pass < passes; pass++ {
 		order := r.Perm(len(types))
@@ -187,7 +197,7 @@ func runC14(o *Out) {
 			v := reflect.New(t)
 			c14Fill(v.Elem(), vr, 0)
 			if cur, err := stdjson.Marshal(v.Interface()); err == nil {
-				o.current(map[string]string{"property": "C14", "type": t.String(), "typeptr": fmt.Sprintf("%#x", c14Addr(t)), "pass": strconv.Itoa(pass), "value": clip(string(cur))})
+				c14Current(o, map[string]string{"property": "C14", "type": t.String(), "typeptr": fmt.Sprintf("%#x", c14Addr(t)), "pass": strconv.Itoa(pass), "value": clip(string(cur))})
 			}
 			for variant := 0; variant < 2; variant++ {
 				var arg interface{}
@@ -295,6 +305,8 @@ func runC14(o *Out) {
 			}
 		}
 	}
+	// generator audit: every type the linker listed, the ends of the window among them
+	c14TypelinksSweep(o, auditRng)
 	info := gojson.VerifCacheReport()
 	for _, p := range info.EncProblems {
 		o.violation("C14", "hook: "+p, nil)
@@ -426,4 +438,584 @@ func runC14(o *Out) {
 			o.Notes = append(o.Notes, "VERIF_RACE_BIN not set: race build not exercised")
 		}
 	}
+}
+
+// ---------------------------------------------------------------------------
+// Added by the generator audit (wave 6).
+
+// the type whose descriptor is at addr (a descriptor of this binary: from the typelinks sample)
+func c14TypeAt(addr uintptr) reflect.Type {
+	var i interface{}
+	(*c14Eface)(unsafe.Pointer(&i)).typ = *(*unsafe.Pointer)(unsafe.Pointer(&addr))
+	return reflect.TypeOf(i)
+}
+
+var c14MethodNames = []string{"MarshalJSON", "UnmarshalJSON", "MarshalText", "UnmarshalText"}
+
+// The types of the binary as a graph (element, key and field types), to sort them for the sweep below:
+//
+//	class 2  plain data: booleans, integers, floats, strings, interfaces (nil in a zero value), and pointers, slices,
+//	         small arrays, maps with string or integer keys and structs of these; nothing with a Marshal/Unmarshal
+//	         method inside: the zero value, and the document encoding/json prints for it, are compared with encoding/json
+//	class 1  everything else that can be handed to the library (func, chan, complex, unsafe.Pointer inside, methods of
+//	         the JSON interfaces, big arrays and structs, a struct or [1] array stored as a single pointer, which is
+//	         the recorded family PointerShapedAggregate of C01): the cache lookup is exercised, the result is not judged
+//	class 0  reaches a named map, slice, array or pointer type that contains itself without a struct in between
+//	         (recorded finding RecursiveNonStructType of C08: compiling it does not terminate): never handed over
+type c14Edge struct {
+	to   int
+	live bool // false: through a struct field both libraries ignore (unexported, not embedded)
+}
+
+type c14Graph struct {
+	nodes []reflect.Type
+	id    map[reflect.Type]int
+	out   [][]c14Edge
+	class []int
+}
+
+func (g *c14Graph) add(t reflect.Type) int {
+	if i, ok := g.id[t]; ok {
+		return i
+	}
+	i := len(g.nodes)
+	g.id[t] = i
+	g.nodes = append(g.nodes, t)
+	g.out = append(g.out, nil)
+	var out []c14Edge
+	switch t.Kind() {
+	case reflect.Ptr, reflect.Slice, reflect.Array:
+		out = append(out, c14Edge{g.add(t.Elem()), true})
+	case reflect.Map:
+		out = append(out, c14Edge{g.add(t.Key()), true}, c14Edge{g.add(t.Elem()), true})
+	case reflect.Struct:
+		for f := 0; f < t.NumField(); f++ {
+			sf := t.Field(f)
+			out = append(out, c14Edge{g.add(sf.Type), sf.PkgPath == "" || sf.Anonymous})
+		}
+	}
+	g.out[i] = out
+	return i
+}
+
+func c14PointerShaped(t reflect.Type) bool {
+	switch t.Kind() {
+	case reflect.Ptr, reflect.Map, reflect.Chan, reflect.Func, reflect.UnsafePointer:
+		return true
+	case reflect.Struct:
+		return t.NumField() == 1 && c14PointerShaped(t.Field(0).Type)
+	case reflect.Array:
+		return t.Len() == 1 && c14PointerShaped(t.Elem())
+	}
+	return false
+}
+
+func (g *c14Graph) classify() {
+	n := len(g.nodes)
+	g.class = make([]int, n)
+	rev := make([][]c14Edge, n)
+	for i, es := range g.out {
+		for _, e := range es {
+			rev[e.to] = append(rev[e.to], c14Edge{i, e.live})
+		}
+	}
+	var bad0, bad1 []int
+	for i, t := range g.nodes {
+		g.class[i] = 2
+		k := t.Kind()
+		// a named non-struct type that reaches itself through non-struct types only
+		if t.Name() != "" && (k == reflect.Ptr || k == reflect.Slice || k == reflect.Array || k == reflect.Map) {
+			seen := map[int]bool{}
+			stack := []int{i}
+			for len(stack) > 0 && g.class[i] != 0 {
+				c := stack[len(stack)-1]
+				stack = stack[:len(stack)-1]
+				for _, e := range g.out[c] {
+					if e.to == i {
+						g.class[i] = 0
+						bad0 = append(bad0, i)
+						break
+					}
+					if !seen[e.to] && g.nodes[e.to].Kind() != reflect.Struct {
+						seen[e.to] = true
+						stack = append(stack, e.to)
+					}
+				}
+			}
+			if g.class[i] == 0 {
+				continue
+			}
+		}
+		local := false
+		for _, m := range c14MethodNames {
+			if _, ok := t.MethodByName(m); ok {
+				local = true
+			}
+			if t.Name() != "" && k != reflect.Ptr && k != reflect.Interface {
+				if _, ok := reflect.PtrTo(t).MethodByName(m); ok {
+					local = true
+				}
+			}
+		}
+		switch k {
+		case reflect.Func, reflect.Chan, reflect.Complex64, reflect.Complex128, reflect.UnsafePointer:
+			local = true
+		case reflect.Array:
+			local = local || t.Len() > 32 || t.Size() > 1024
+		case reflect.Struct:
+			local = local || t.Size() > 4096
+		case reflect.Map:
+			switch t.Key().Kind() {
+			case reflect.String, reflect.Int, reflect.Int8, reflect.Int16, reflect.Int32, reflect.Int64,
+				reflect.Uint, reflect.Uint8, reflect.Uint16, reflect.Uint32, reflect.Uint64:
+			default:
+				local = true
+			}
+		}
+		// a struct or [1] array stored as a single pointer: recorded findings PointerShapedAggregate / PointerShapedArray (C01)
+		if (k == reflect.Struct || k == reflect.Array) && c14PointerShaped(t) {
+			local = true
+		}
+		if local {
+			bad1 = append(bad1, i)
+		}
+	}
+	spread := func(start []int, class int, liveOnly bool) {
+		stack := append([]int{}, start...)
+		for _, i := range start {
+			if g.class[i] > class {
+				g.class[i] = class
+			}
+		}
+		seen := map[int]bool{}
+		for len(stack) > 0 {
+			c := stack[len(stack)-1]
+			stack = stack[:len(stack)-1]
+			for _, e := range rev[c] {
+				if (liveOnly && !e.live) || seen[e.to] {
+					continue
+				}
+				seen[e.to] = true
+				if g.class[e.to] > class {
+					g.class[e.to] = class
+				}
+				stack = append(stack, e.to)
+			}
+		}
+	}
+	spread(bad1, 1, true)
+	spread(bad0, 0, false)
+}
+
+// o.current without opening the file every time (the sweep names thousands of types, one before each call)
+var (
+	c14CurFile *os.File
+	c14CurLen  int
+)
+
+func c14Current(o *Out, detail map[string]string) {
+	if c14CurFile == nil {
+		f, err := os.OpenFile(filepath.Join(o.dir, "current.json"), os.O_RDWR|os.O_CREATE|os.O_TRUNC, 0o644)
+		if err != nil {
+			o.current(detail)
+			return
+		}
+		c14CurFile = f
+	}
+	b, _ := stdjson.Marshal(detail)
+	// padded to a fixed length with spaces (still JSON), so that one write replaces the previous text
+	for len(b) < 512 {
+		b = append(b, ' ')
+	}
+	c14CurFile.WriteAt(b, 0)
+	if len(b) != c14CurLen {
+		c14CurFile.Truncate(int64(len(b)))
+		c14CurLen = len(b)
+	}
+}
+
+func c14Recover(f func() error) (err error) {
+	defer func() {
+		if rec := recover(); rec != nil {
+			err = fmt.Errorf("panic: %v", rec)
+		}
+	}()
+	return f()
+}
+
+// Every type the linker listed (the sample AnalyzeTypeAddr draws the window from) and the element types of the
+// listed pointer types: among them the types with the lowest and the highest descriptor address, i.e. the first and
+// the last slot of both caches, which none of the generated types can be, and thousands of neighbours that collide
+// if the inferred shift is too big.  The hook reports a slot used by two types or a program of another type.
+func c14TypelinksSweep(o *Out, r *rand.Rand) {
+	info := gojson.VerifCacheReport()
+	if info.Sections != 1 || len(info.Links) == 0 {
+		o.Notes = append(o.Notes, "typelinks sweep: no single typelinks section")
+		return
+	}
+	g := &c14Graph{id: map[reflect.Type]int{}}
+	seen := map[uintptr]bool{}
+	var addrs []uintptr
+	for _, l := range info.Links {
+		for _, a := range []uintptr{l.Addr, l.Elem} {
+			if a != 0 && !seen[a] {
+				seen[a] = true
+				addrs = append(addrs, a)
+				g.add(c14TypeAt(a))
+			}
+		}
+	}
+	g.classify()
+	sort.Slice(addrs, func(i, j int) bool { return addrs[i] < addrs[j] })
+	lo, hi := addrs[0], addrs[len(addrs)-1]
+	o.Notes = append(o.Notes, fmt.Sprintf("typelinks sweep: lowest descriptor %#x %s, highest %#x %s", lo, c14TypeAt(lo).String(), hi, c14TypeAt(hi).String()))
+	o.count("sweep_types_in_graph", int64(len(g.nodes)))
+	for _, k := range r.Perm(len(addrs)) {
+		a := addrs[k]
+		t := c14TypeAt(a)
+		class := g.class[g.id[t]]
+		where := ""
+		switch {
+		case a == lo:
+			where = "lowest descriptor address (first slot)"
+		case a == hi:
+			where = "highest descriptor address (last slot)"
+		case k < 4 || k >= len(addrs)-4:
+			where = "next to the ends of the window"
+		}
+		if class == 0 || t.Kind() == reflect.Interface || t.Size() > 1<<14 {
+			o.hist("sweep_type_class", "not handed to the library (self-containing non-struct type, interface type or very big)")
+			if where != "" {
+				o.hist("sweep_window_ends", where+": not handed to the library")
+			}
+			continue
+		}
+		o.hist("sweep_type_class", []string{"", "cache lookup only", "compared with encoding/json"}[class])
+		if where != "" {
+			o.hist("sweep_window_ends", where+": "+[]string{"", "cache lookup only", "compared with encoding/json"}[class])
+		}
+		c14Current(o, map[string]string{"property": "C14", "phase": "sweep over the types the linker listed", "type": t.String(), "typeptr": fmt.Sprintf("%#x", a)})
+		det := func(m map[string]string) map[string]string {
+			m["type"], m["typeptr"], m["where"] = t.String(), fmt.Sprintf("%#x", a), where
+			return m
+		}
+		unjudged := func(what string, err error) {
+			if err == nil || !strings.HasPrefix(err.Error(), "panic:") {
+				return
+			}
+			if strings.Contains(err.Error(), "index out of range") {
+				o.violation("C14", "cache lookup for a type of the binary panicked ("+what+")", det(map[string]string{"err": err.Error()}))
+				return
+			}
+			o.count("sweep_panics_not_judged", 1)
+			o.Notes = appendNote(o.Notes, fmt.Sprintf("typelinks sweep, %s of %s (not plain data, not judged): %v", what, t.String(), err))
+		}
+		var z interface{}
+		var x reflect.Value
+		if c14Recover(func() error {
+			z = reflect.Zero(t).Interface()
+			if t.Kind() == reflect.Ptr {
+				x = reflect.New(t.Elem())
+			}
+			return nil
+		}) != nil {
+			o.count("sweep_types_reflect_cannot_allocate", 1)
+			continue
+		}
+		var gb []byte
+		gerr := c14Recover(func() error { var e error; gb, e = gojson.Marshal(z); return e })
+		o.count("sweep_encodings", 1)
+		if class == 2 {
+			wb, werr := stdjson.Marshal(z)
+			if (gerr != nil) != (werr != nil) || (gerr == nil && !bytes.Equal(gb, wb)) {
+				if c14EmbedsPtrToRecursive(t) {
+					// C01's recorded finding (a struct that embeds a pointer to a struct type containing itself): compiling it panics
+					o.known("EmbeddedPtrToRecursiveStruct", t.String())
+					continue
+				}
+				o.violation("C14", "the zero value of a type of the binary is not encoded as its own type prescribes (differs from encoding/json)",
+					det(map[string]string{"got": clip(string(gb)), "want": clip(string(wb)), "err": fmt.Sprint(gerr), "werr": fmt.Sprint(werr)}))
+			}
+		} else {
+			unjudged("Marshal", gerr)
+		}
+		if t.Kind() != reflect.Ptr {
+			continue
+		}
+		// the decoder's cache is indexed by the pointer type handed to Unmarshal
+		doc := []byte("null")
+		if class == 2 {
+			if b, err := stdjson.Marshal(reflect.Zero(t.Elem()).Interface()); err == nil {
+				doc = b
+			}
+		}
+		xerr := c14Recover(func() error { return gojson.Unmarshal(doc, x.Interface()) })
+		o.count("sweep_decodings", 1)
+		if class == 2 {
+			y := reflect.New(t.Elem())
+			yerr := stdjson.Unmarshal(doc, y.Interface())
+			if (xerr != nil) != (yerr != nil) || (xerr == nil && !reflect.DeepEqual(x.Interface(), y.Interface())) {
+				o.violation("C14", "a document is not decoded as the destination's own type prescribes (a type of the binary; differs from encoding/json)",
+					det(map[string]string{"doc": clip(string(doc)), "err": fmt.Sprint(xerr), "werr": fmt.Sprint(yerr)}))
+			}
+		} else {
+			unjudged("Unmarshal", xerr)
+		}
+	}
+}
+
+var c14Ansi = regexp.MustCompile("\x1b\\[[0-9;]*m")
+
+type c14Holder struct {
+	I interface{}
+}
+
+// First use of a type through the other ways into the two caches: the other entry points (indent, no-escape,
+// context, Encoder, Decoder, colour) and, inside a running program, a value met behind an interface{} (the four
+// interpreters look the dynamic type up themselves; the interface decoder does for a pointer it finds in the
+// destination).  Called before anything else has used these types, so the lookup compiles and stores.
+func c14ColdEntryPoints(o *Out, types []reflect.Type, picks []int, valueSeed int64, r *rand.Rand) {
+	encNames := []string{"MarshalIndent", "Encoder.Encode", "MarshalNoEscape", "MarshalContext", "inside []interface{}", "inside map[string]interface{}",
+		"MarshalIndent, inside struct{I interface{}}", "colour, inside []interface{}", "colour and indent, inside []interface{}", "Encoder no HTML escape, inside []interface{}"}
+	decNames := []string{"Decoder.Decode", "UnmarshalNoEscape", "UnmarshalContext", "Unmarshal, pointer held by interface{}", "Decoder.Decode, pointer held by interface{}"}
+	for _, k := range picks {
+		t := types[k]
+		v := reflect.New(t)
+		c14Fill(v.Elem(), rand.New(rand.NewSource(valueSeed+int64(k))), 0)
+		elem, ptr := v.Elem().Interface(), v.Interface()
+		e := r.Intn(len(encNames))
+		c14Current(o, map[string]string{"property": "C14", "phase": "first use through " + encNames[e], "type": t.String(), "typeptr": fmt.Sprintf("%#x", c14Addr(t))})
+		var g, w []byte
+		var werr error
+		gerr := c14Recover(func() error {
+			var err error
+			var buf bytes.Buffer
+			switch e {
+			case 0:
+				g, err = gojson.MarshalIndent(ptr, "", "  ")
+				w, werr = stdjson.MarshalIndent(ptr, "", "  ")
+			case 1:
+				err = gojson.NewEncoder(&buf).Encode(elem)
+				g = append([]byte{}, buf.Bytes()...)
+				buf.Reset()
+				werr = stdjson.NewEncoder(&buf).Encode(elem)
+				w = buf.Bytes()
+			case 2:
+				g, err = gojson.MarshalNoEscape(elem)
+				w, werr = stdjson.Marshal(elem)
+			case 3:
+				g, err = gojson.MarshalContext(context.Background(), ptr)
+				w, werr = stdjson.Marshal(ptr)
+			case 4:
+				x := []interface{}{elem, ptr, 1}
+				g, err = gojson.Marshal(x)
+				w, werr = stdjson.Marshal(x)
+			case 5:
+				x := map[string]interface{}{"e": elem, "p": ptr}
+				g, err = gojson.Marshal(x)
+				w, werr = stdjson.Marshal(x)
+			case 6:
+				x := []c14Holder{{ptr}, {elem}}
+				g, err = gojson.MarshalIndent(x, "", " ")
+				w, werr = stdjson.MarshalIndent(x, "", " ")
+			case 7:
+				x := []interface{}{ptr, elem}
+				g, err = gojson.MarshalWithOption(x, gojson.Colorize(gojson.DefaultColorScheme))
+				g = c14Ansi.ReplaceAll(g, nil)
+				w, werr = stdjson.Marshal(x)
+			case 8:
+				x := []interface{}{elem, ptr}
+				g, err = gojson.MarshalIndentWithOption(x, "", " ", gojson.Colorize(gojson.DefaultColorScheme))
+				g = c14Ansi.ReplaceAll(g, nil)
+				w, werr = stdjson.MarshalIndent(x, "", " ")
+			default:
+				x := []interface{}{elem, ptr}
+				ge := gojson.NewEncoder(&buf)
+				ge.SetEscapeHTML(false)
+				err = ge.Encode(x)
+				g = append([]byte{}, buf.Bytes()...)
+				buf.Reset()
+				we := stdjson.NewEncoder(&buf)
+				we.SetEscapeHTML(false)
+				werr = we.Encode(x)
+				w = buf.Bytes()
+			}
+			return err
+		})
+		o.count("cold_entry_encodings", 1)
+		o.hist("cold_first_use_encode", encNames[e])
+		if (gerr != nil) != (werr != nil) || (gerr == nil && !bytes.Equal(g, w)) {
+			o.violation("C14", "a value first met through another entry point or behind an interface is not encoded as its own type prescribes (differs from encoding/json)", map[string]string{
+				"type": t.String(), "typeptr": fmt.Sprintf("%#x", c14Addr(t)), "entry": encNames[e], "got": clip(string(g)), "want": clip(string(w)), "err": fmt.Sprint(gerr)})
+		}
+		doc, derr := stdjson.Marshal(ptr)
+		if derr != nil {
+			continue
+		}
+		d := r.Intn(len(decNames))
+		c14Current(o, map[string]string{"property": "C14", "phase": "first use through " + decNames[d], "type": t.String(), "typeptr": fmt.Sprintf("%#x", c14Addr(t)), "doc": clip(string(doc))})
+		x, y := reflect.New(t), reflect.New(t)
+		var yerr error
+		xerr := c14Recover(func() error {
+			switch d {
+			case 0:
+				yerr = stdjson.Unmarshal(doc, y.Interface())
+				return gojson.NewDecoder(bytes.NewReader(doc)).Decode(x.Interface())
+			case 1:
+				yerr = stdjson.Unmarshal(doc, y.Interface())
+				return gojson.UnmarshalNoEscape(doc, x.Interface())
+			case 2:
+				yerr = stdjson.Unmarshal(doc, y.Interface())
+				return gojson.UnmarshalContext(context.Background(), doc, x.Interface())
+			}
+			hx, hy := &c14Holder{I: x.Interface()}, &c14Holder{I: y.Interface()}
+			hdoc := append(append([]byte(`{"I":`), doc...), '}')
+			yerr = stdjson.Unmarshal(hdoc, hy)
+			var err error
+			if d == 3 {
+				err = gojson.Unmarshal(hdoc, hx)
+			} else {
+				err = gojson.NewDecoder(bytes.NewReader(hdoc)).Decode(hx)
+			}
+			if err == nil && yerr == nil && (hx.I != x.Interface()) != (hy.I != y.Interface()) {
+				return fmt.Errorf("the pointer held by the interface was replaced by one library only")
+			}
+			return err
+		})
+		o.count("cold_entry_decodings", 1)
+		o.hist("cold_first_use_decode", decNames[d])
+		if (xerr != nil) != (yerr != nil) || (xerr == nil && !reflect.DeepEqual(x.Interface(), y.Interface())) {
+			gs, _ := stdjson.Marshal(x.Interface())
+			o.violation("C14", "a document first decoded through another entry point or into a pointer held by an interface is not decoded as the destination's own type prescribes (differs from encoding/json)", map[string]string{
+				"type": t.String(), "typeptr": fmt.Sprintf("%#x", c14Addr(t)), "entry": decNames[d], "doc": clip(string(doc)), "got": clip(string(gs)), "err": fmt.Sprint(xerr), "werr": fmt.Sprint(yerr)})
+		}
+	}
+}
+
+// First use of the same types by several goroutines at once, each in an order of its own: whichever goroutine fills
+// a slot (or adds to the fallback map), every goroutine must get the program of the type it asked for
+func c14Concurrent(o *Out, types []reflect.Type, picks []int, valueSeed int64, r *rand.Rand) {
+	type job struct {
+		t    reflect.Type
+		arg  interface{}
+		want []byte
+		werr error
+		doc  []byte
+		dst  reflect.Value // what encoding/json decodes doc to
+	}
+	var jobs []job
+	for _, k := range picks {
+		t := types[k]
+		v := reflect.New(t)
+		c14Fill(v.Elem(), rand.New(rand.NewSource(valueSeed+int64(k))), 0)
+		j := job{t: t, arg: v.Interface()}
+		j.want, j.werr = stdjson.Marshal(j.arg)
+		if j.werr == nil {
+			j.doc = j.want
+			j.dst = reflect.New(t)
+			if stdjson.Unmarshal(j.doc, j.dst.Interface()) != nil {
+				j.doc = nil
+			}
+		}
+		jobs = append(jobs, j)
+	}
+	const workers = 8
+	type bad struct {
+		j    int
+		what string
+		got  string
+		err  error
+	}
+	var mu sync.Mutex
+	var bads []bad
+	var wg sync.WaitGroup
+	orders := make([][]int, workers)
+	for w := range orders {
+		orders[w] = r.Perm(len(jobs))
+	}
+	c14Current(o, map[string]string{"property": "C14", "phase": "first use by several goroutines at once", "types": strconv.Itoa(len(jobs))})
+	for w := 0; w < workers; w++ {
+		wg.Add(1)
+		go func(order []int) {
+			defer wg.Done()
+			for _, ji := range order {
+				j := jobs[ji]
+				var g []byte
+				gerr := c14Recover(func() error { var e error; g, e = gojson.Marshal(j.arg); return e })
+				if (gerr != nil) != (j.werr != nil) || (gerr == nil && !bytes.Equal(g, j.want)) {
+					mu.Lock()
+					bads = append(bads, bad{ji, "encoded", clip(string(g)), gerr})
+					mu.Unlock()
+				}
+				if j.doc == nil {
+					continue
+				}
+				x := reflect.New(j.t)
+				xerr := c14Recover(func() error { return gojson.Unmarshal(j.doc, x.Interface()) })
+				if xerr != nil || !reflect.DeepEqual(x.Interface(), j.dst.Interface()) {
+					gs, _ := stdjson.Marshal(x.Interface())
+					mu.Lock()
+					bads = append(bads, bad{ji, "decoded", clip(string(gs)), xerr})
+					mu.Unlock()
+				}
+			}
+		}(orders[w])
+	}
+	wg.Wait()
+	o.count("concurrent_first_use_types", int64(len(jobs)))
+	o.count("concurrent_first_use_calls", int64(2*workers*len(jobs)))
+	for _, b := range bads {
+		j := jobs[b.j]
+		o.violation("C14", "with several goroutines using types for the first time, a value is not "+b.what+" as its own type prescribes (differs from encoding/json)", map[string]string{
+			"type": j.t.String(), "typeptr": fmt.Sprintf("%#x", c14Addr(j.t)), "got": b.got, "want": clip(string(j.want)), "err": fmt.Sprint(b.err)})
+	}
+}
+
+// c14EmbedsPtrToRecursive: t (or what it points to) is a struct with an embedded field of type *S, S a struct type that
+// contains itself through pointers, slices, arrays, maps or struct fields
+func c14EmbedsPtrToRecursive(t reflect.Type) bool {
+	for t.Kind() == reflect.Ptr {
+		t = t.Elem()
+	}
+	if t.Kind() != reflect.Struct {
+		return false
+	}
+	for i := 0; i < t.NumField(); i++ {
+		f := t.Field(i)
+		if f.Anonymous && f.Type.Kind() == reflect.Ptr && f.Type.Elem().Kind() == reflect.Struct && c14ContainsItself(f.Type.Elem()) {
+			return true
+		}
+	}
+	return false
+}
+
+func c14ContainsItself(s reflect.Type) bool {
+	seen := map[reflect.Type]bool{}
+	var walk func(t reflect.Type, depth int) bool
+	walk = func(t reflect.Type, depth int) bool {
+		if depth > 12 {
+			return false
+		}
+		switch t.Kind() {
+		case reflect.Ptr, reflect.Slice, reflect.Array:
+			return walk(t.Elem(), depth+1)
+		case reflect.Map:
+			return walk(t.Elem(), depth+1)
+		case reflect.Struct:
+			if t == s && depth > 0 {
+				return true
+			}
+			if seen[t] {
+				return false
+			}
+			seen[t] = true
+			for i := 0; i < t.NumField(); i++ {
+				if walk(t.Field(i).Type, depth+1) {
+					return true
+				}
+			}
+		}
+		return false
+	}
+	return walk(s, 0)
 }
